@@ -97,6 +97,7 @@ pub fn kind_extended() -> impl Strategy<Value = OpKind> {
         1 => any::<bool>().prop_map(|peer| OpKind::SocketName { peer }),
         1 => Just(OpKind::SetSockOpt),
         1 => Just(OpKind::ReceiveSignal),
+        1 => (1u16..2000).prop_map(|cap| OpKind::ReadOwning { cap }),
         3 => kind_args(),
         3 => kind_paths(),
     ]
